@@ -899,6 +899,15 @@ class BuiltinsMixin(object):
                 owner, n = r
                 if isinstance(n, ast.FunctionDef):
                     f = self.prog.method(ci, name)
+                    if _is_property(n):
+                        # a read-only property: the value its getter returns
+                        res = [(q, x) for (q, x) in self.call_function(
+                            FRef(f), [v], [], path, node)
+                            if not isinstance(x, Raise)]
+                        if len(res) != 1 or res[0][0] is not path:
+                            self.inconclusive('property %s with several '
+                                              'outcomes' % name, node)
+                        return res[0][1]
                     if _is_static(n):
                         return FRef(f)
                     if _is_classmethod(n):
@@ -1063,6 +1072,22 @@ class BuiltinsMixin(object):
     # -- calls ------------------------------------------------------------
     def ex_Call(self, node, fr, path):
         out = []
+        if isinstance(node.func, ast.Name) and node.func.id == 'super' and \
+                not node.args and not node.keywords:
+            # zero-argument super(): the class the method is defined in and
+            # the method's first argument
+            f = self.stack[-1] if self.stack else None
+            h = path.heap[fr]
+            while h is not None and h.fnode is not None and \
+                    f is not None and h.fnode is not f.node and \
+                    h.parent is not None:
+                h = path.heap[h.parent]
+            if f is not None and f.owner is not None and \
+                    f.node.args.args:
+                first = f.node.args.args[0].arg
+                if first in h.vars:
+                    return [(path, App('super', CRef(f.owner),
+                                       h.vars[first]))]
         for (p, fv) in self.eval(node.func, fr, path):
             if isinstance(fv, Raise):
                 out.append((p, fv))
@@ -2042,6 +2067,13 @@ def kw_free(args):
 
 NEG_CMP = {'==': '!=', '!=': '==', 'is': 'is not', 'is not': 'is',
            '<': '>=', '>=': '<', '>': '<=', '<=': '>'}
+
+
+def _is_property(fnode):
+    for d in fnode.decorator_list:
+        if isinstance(d, ast.Name) and d.id == 'property':
+            return True
+    return False
 
 
 def _is_classmethod(fnode):
